@@ -61,9 +61,11 @@ Row(r) == IF ncols = 2 THEN <<r.a, r.b>> ELSE <<r.a, r.b, r.c>>
 RowsOut(rs, nc) == [i \in DOMAIN rs |-> IF nc = 2 THEN <<rs[i].a, rs[i].b>> ELSE <<rs[i].a, rs[i].b, rs[i].c>>]
 Step(op, args, out, nc, ix) == [op |-> op, args |-> args, rows |-> out, ncols |-> nc, idx |-> ix]
 
-Init == /\ \E t \in InitTables : rows = [i \in DOMAIN t |-> [a |-> t[i][1], b |-> t[i][2], c |-> M]]
-        /\ ncols = 2 /\ idx = <<>> /\ sel = [i \in 1..Len(rows) |-> i] /\ n = 0 /\ fresh = TRUE
-        /\ hist = <<Step("new", <<>>, RowsOut(rows, 2), 2, <<>>)>>
+Init == /\ \E t \in InitTables :
+              /\ rows = [i \in DOMAIN t |-> [a |-> t[i][1], b |-> t[i][2], c |-> IF Len(t[i]) = 3 THEN t[i][3] ELSE M]]
+              /\ ncols = IF \E i \in DOMAIN t : Len(t[i]) = 3 THEN 3 ELSE 2       \* a table may start with three columns
+        /\ idx = <<>> /\ sel = [i \in 1..Len(rows) |-> i] /\ n = 0 /\ fresh = TRUE
+        /\ hist = <<Step("new", <<>>, RowsOut(rows, ncols), ncols, <<>>)>>
 
 (* column c (brought by a ragged insert) can be indexed too unless it holds None, which Python cannot order *)
 COrderable == ncols = 3 /\ \A i \in DOMAIN rows : rows[i].c # N
@@ -104,6 +106,13 @@ DoWhere2 == /\ "where2" \in Ops /\ ncols >= 2
                  /\ sel' = keep
                  /\ hist' = Append(hist, Step("where2", <<o1, x1, o2, x2>>, RowsOut([i \in DOMAIN keep |-> rows[keep[i]]], ncols), ncols, idx))
             /\ UNCHANGED <<rows, ncols, idx, fresh>>
+(* three keyword conditions in one call: still the union, whatever the conditions before it already selected *)
+DoWhere3 == /\ "where3" \in Ops /\ ncols = 3
+            /\ \E x1 \in {0,1} : \E x2 \in {0,1} : \E o3 \in {"=","<"} : \E x3 \in {1,2} :
+                 LET keep == SelectSeq(sel, LAMBDA p : Sat("=", x1, rows[p]["a"]) \/ Sat("=", x2, rows[p]["b"]) \/ Sat(o3, x3, rows[p]["c"])) IN
+                 /\ sel' = keep
+                 /\ hist' = Append(hist, Step("where3", <<x1, x2, o3, x3>>, RowsOut([i \in DOMAIN keep |-> rows[keep[i]]], ncols), ncols, idx))
+            /\ UNCHANGED <<rows, ncols, idx, fresh>>
 (* inserts go to the base table (a view cannot be modified); a ragged insert brings column c and pads *)
 NewRows == {<<[a |-> 1, b |-> 0, c |-> M]>>, <<[a |-> 0, b |-> 2, c |-> M], [a |-> 2, b |-> 2, c |-> M]>>}
 RaggedRows == {<<[a |-> 1, b |-> M, c |-> 5]>>, <<[a |-> M, b |-> 1, c |-> N], [a |-> 0, b |-> 0, c |-> 7]>>}
@@ -133,7 +142,7 @@ DoGroupBy == /\ "groupby" \in Ops /\ idx # <<>> /\ fresh /\ sel = Whole /\ rows 
              /\ UNCHANGED <<rows, ncols, idx, sel, fresh>>
 
 Next == /\ n < MaxOps /\ n' = n + 1
-        /\ (DoIndex \/ DoWhere \/ DoWhere2 \/ DoInsert \/ DoCopy \/ DoGroupBy)
+        /\ (DoIndex \/ DoWhere \/ DoWhere2 \/ DoWhere3 \/ DoInsert \/ DoCopy \/ DoGroupBy)
 Spec == Init /\ [][Next]_vars
 
 (* ---------------- what the design guarantees (checked by TLC on the spec itself) ---------------- *)
